@@ -1546,6 +1546,14 @@ fn make_case(run: &mut Runner, seed: u64, index: u64, thorough: bool) -> CaseOut
                     }
                 }
                 timing += &format!(" control({}B)={}us", ctl.len(), tc / 1000);
+                if nanos > 50 * tc + 5_000_000 {
+                    // re-measure (cold caches, scheduling noise) and keep the best of three
+                    for _ in 0..2 {
+                        if let Ran::Done(o2) = run.run(inp.entry, skip, &inp.bytes) {
+                            nanos = nanos.min(o2.nanos);
+                        }
+                    }
+                }
                 if nanos > 50 * tc + 5_000_000 && oracle_fail.is_none() {
                     oracle_fail = Some(format!(
                         "decode time {} us for {} bytes vs {} us for the same {} records without the pointer chain ({} B): time is not proportional to input length",
